@@ -46,6 +46,12 @@ fn main() -> Result<(), Box<dyn Error>> {
         }
     }
 
+    // replacing the children of the document node can leave it without a document element:
+    // that is not a document, and nothing could read the output back.
+    if dom.document_element().is_err() {
+        return Err("The result has no document element.".into());
+    }
+
     let mut buf = BufWriter::new(io::stdout().lock());
     if arg.no_indent {
         buf.write_fmt(format_args!("{}\n", dom))?;
